@@ -75,9 +75,10 @@ def gen_obligations(g, P):
         except Exception as e:      # encoder crash on changed code: undecided for that function, never a verdict
             inapp.append((q, f'encoder-crash {type(e).__name__}: {e}\n' + traceback.format_exc()[-600:]))
     for ln in P.get('lemmas', []):
+        LM.CALLED.clear()
         obs = LM.obligations(ln)
         obligs += obs
-        infos.append(dict(name='lemma:' + ln, src_hash='-', contract_hash='-', lines=(0, 0), n=len(obs)))
+        infos.append(dict(name='lemma:' + ln, src_hash='-', contract_hash='-', lines=(0, 0), n=len(obs), lemmas_used=sorted(LM.CALLED - {ln})))
     return obligs, infos, inapp
 
 
@@ -99,12 +100,20 @@ def gen_parallel(P, procs=12):
     ctx = mp.get_context('fork')
     with ctx.Pool(min(procs, max(1, len(tasks)))) as pool:
         parts = pool.map(_gen_worker, tasks, chunksize=1)
-    items, cans, infos, inapp = [], [], [], []
-    for a, b, c, d in parts:
-        items += a
-        cans += b
-        infos += c
-        inapp += d
+        items, cans, infos, inapp = [], [], [], []
+        done = set(P.get('lemmas', []))
+        while True:
+            for a, b, c, d in parts:
+                items += a
+                cans += b
+                infos += c
+                inapp += d
+            # every lemma a function (or another lemma's proof) uses is proved in THIS run, whether or not the property lists it
+            need = sorted({l for i in infos for l in i.get('lemmas_used', [])} - done)
+            if not need:
+                break
+            done |= set(need)
+            parts = pool.map(_gen_worker, [('lemma', l) for l in need], chunksize=1)
     return items, cans, infos, inapp
 
 
@@ -343,6 +352,8 @@ def main():
             phase_wall_s=dict(vc_generation=round(t_gen, 1), discharge=round(t_dis, 1), vacuity_canaries=round(t_can, 1)),
             undecided_clauses=P.get('undecided_clauses', []),
             termination_unproved=P.get('termination_unproved', []),
+            termination_proved=P.get('termination_proved', []),
+            termination_variants=[dict(obligation=r['name'], verdict=r['verdict']) for r in res if '/variant' in r['name']],
             bounded_standins=[dict(what=P.get('oracle_what', 'executable contracts of the same clauses run on the real code over enumerated / seeded small inputs (bounded: never counted in discharged)'),
                                    bounded=True, evaluations=orc.get('evaluations', 0), distinct_nontrivial=orc.get('distinct', 0),
                                    failures=len(orc.get('failures', [])), samples=orc.get('samples', [])[:3], detail=orc.get('detail', {}))],
